@@ -424,6 +424,28 @@ def check(run):
     for k, v in outs.items():
         ok = same(it, v, want)
         run.check(ok, 'D3', k if not ok else f'{k} returns the 64-byte signature', f'{k} -> {vrepr(v)[:70]}', ws)
+    # messages of every size are signed the same way (pure Ed25519 over the whole message): the empty one, and sizes around 64 KiB / 1 MiB / 16 MiB
+    for n_ in (0, 1, 65535, 65536, (1 << 20) - 1, 1 << 20, (1 << 20) + 1, 3 << 20, 1 << 24):
+        itn = mk(prog)
+        An = peer(prog, itn, 'A')
+        Mn = Sym(f'MSG{n_}', ty='bytes', n=n_, key=('msgn', n_)) if n_ else K(b'')
+        seedn = An.attrs['ed25519_private'].seed
+        wantn = sig_term(seedn, Mn)
+        for k, call_ in (('get_signature', lambda: itn.invoke(prog.func('get_signature'), [An.attrs['ed25519_private'], Mn], {})),
+                         ('sign_message', lambda: itn.invoke(prog.func('sign_message'), [Mn, seedn, RawEncoderModel()], {}))):
+            try:
+                v = call_()
+                ok, why = same(itn, v, wantn), f'-> {vrepr(v)[:60]}'
+                if ok:
+                    r = itn.invoke(prog.func('verify_sign'), [Term('pub', seedn), Mn, v], {})
+                    ok = isinstance(r, K) and r.v is True
+                    why += f'; verify_sign -> {vrepr(r)[:20]}'
+            except RaiseEx as e:
+                ok, why = False, f'raises {e}'
+            except Fail as e:
+                raise AnalysisError(f'{k} on a message of {n_} bytes: {e}')
+            run.check(ok, 'D3', f'{k}[message of {n_} bytes]' if not ok else f'{k}:{n_} bytes', f'{k} on a message of {n_} bytes {why} (must be the Ed25519 signature of the whole message, which verify_sign accepts)', ws)
+            run.evaluations += 1
     pkA = Term('pub', seedA)
     pkB = Term('pub', Sym('seed_B', ty='bytes', n=32, key=('seed', 'B')))
     M2 = Sym('MSG2', ty='bytes', n=40, key=('msg2',))
